@@ -27,6 +27,8 @@ TYPES = {
     # a ring with a tail (one cycle): tail at the far side of the ring / at the first residue
     "LASSO": dict(res=[("S", ["a"])] * 6, edges=[(0, 1), (1, 2), (2, 3), (0, 3), (2, 4), (4, 5)]),
     "LASSO0": dict(res=[("S", ["a"])] * 6, edges=[(0, 1), (1, 2), (2, 3), (0, 3), (0, 4), (4, 5)]),
+    # a capped first residue followed by residues of a plain type (for -split pieces that reuse an existing residue name)
+    "CAP4": dict(res=[("H", ["x", "y", "z"]), ("S", ["a"]), ("S", ["a"]), ("S", ["a"])], edges=[(0, 1), (1, 2), (2, 3)]),
     "DI3": dict(res=[("D", ["p", "q"]), ("D", ["p", "q"]), ("D", ["p", "q"])], edges=[(0, 1), (1, 2)]),
     "MID7": dict(res=[("S", ["a"]), ("S", ["a"]), ("S", ["a"]), ("K", ["k"]), ("S", ["a"]), ("S", ["a"]), ("S", ["a"])],
                  edges=[(i, i + 1) for i in range(6)]),
